@@ -283,8 +283,8 @@ def rfc4647(rng, tag):
     if tag == '':
         return False
     R, T = rng.split('-'), tag.split('-')
-    if any(r == '' for r in R):
-        return None           # guarded: malformed range
+    if any(r == '' for r in R) or any(t == '' for t in T):
+        return None           # guarded: malformed range or tag (an empty subtag): the property is silent
     if R[0] != '*' and R[0] != T[0]:
         return False
     ri, ti = 1, 1
